@@ -121,7 +121,7 @@ def model_op(opl):
         return "cpl %s %s" % (t[1], tobin(t[2]))
     if t[0] in ("cinitsrc", "cinitcdictadv", "cinitadv", "cresetcs"):     # the pledged size is the last argument
         return " ".join(t[:-1] + [tobin(t[-1])])
-    if t[0] in ("cover", "fixture"):      # direct rules without a model
+    if t[0] in ("cover", "fixture", "dfxb"):      # direct rules without a model (dfxb: buffer-less decoding leaves what the model tracks alone)
         return "nop"
     return opl
 
@@ -135,7 +135,7 @@ def canon(opl, real_line, model_line=""):
         return real_line
     if t[0] == "cfxwin" and r[0] == "ok":
         return " ".join(r[:5])
-    if t[0] in ("dfx", "cover", "fixture"):
+    if t[0] in ("dfx", "dfxb", "cover", "fixture"):
         return "ok"
     if r[0] == "err":
         return "err"
@@ -450,7 +450,7 @@ class Oracle:
                 elif cls != "ok" or post != pre:
                     return "unknown reset directive changed something"
                 return None
-            if k0 in ("dbegin", "dend", "dbad", "dbadcall", "dframe", "dfx"):
+            if k0 in ("dbegin", "dend", "dbad", "dbadcall", "dframe", "dfx", "dfxb"):
                 if qpar != ppar or qmw != pmw or (qdict != pdict and not new_dict_calls):   # round 2: a prefix is consumed by a frame
                     return "parameters changed by a decompression call (not sticky)"
                 if k0 == "dfx":
@@ -463,8 +463,8 @@ class Oracle:
                         exp = fmt == 0
                     elif k == 1:
                         exp = fmt == 1
-                    elif k == 2:
-                        exp = None if (mbs != 0 and mbs < 4096) else (fmt == 0 and mw >= 4096)
+                    elif k == 2:      # round 3: ZSTD_d_maxBlockSize below the 4096-byte first block refuses the frame on every path
+                        exp = fmt == 0 and mw >= 4096 and (mbs == 0 or mbs >= 4096)
                     elif k == 3:
                         exp = fmt == 0 and ign == 1
                     elif k == 4:
@@ -472,6 +472,15 @@ class Oracle:
                     if exp is not None and exp != (cls == "ok"):
                         return "decoder-side effect: frame %d %s although format=%d maxWindow=%d ignoreChecksum=%d dict=%s" % (
                             k, "decoded" if cls == "ok" else "refused", fmt, mw, ign, pdict)
+                if k0 == "dfxb":      # buffer-less decoding: same parameters in force, except the window limit (the caller's job there) and dictionaries (none given)
+                    fmt = int(ppar[e.dids.index(e.did["format"])])
+                    mbs = int(ppar[e.dids.index(e.did["maxBlockSize"])])
+                    ign = int(ppar[e.dids.index(e.did["forceIgnoreChecksum"])])
+                    k = int(t[2]) % 5
+                    exp = {0: fmt == 0, 1: fmt == 1, 2: fmt == 0 and (mbs == 0 or mbs >= 4096), 3: fmt == 0 and ign == 1, 4: False}[k]
+                    if exp != (cls == "ok"):
+                        return "decoder-side effect (buffer-less decoding): frame %d %s although format=%d maxBlockSize=%d ignoreChecksum=%d" % (
+                            k, "decoded" if cls == "ok" else "refused", fmt, mbs, ign)
                 return None
         return None
 
@@ -740,7 +749,7 @@ def gen_history(rng, env, n):
             elif k < 0.68:
                 op = "dreset %d %d" % (o, rng.choice([1, 1, 2, 3, 0]))
             elif k < 0.9:
-                op = rng.choice(["dbegin", "dend", "dbad", "dbadcall", "dframe", "dfx"]) + " %d" % o
+                op = rng.choice(["dbegin", "dend", "dbad", "dbadcall", "dframe", "dfx", "dfxb"]) + " %d" % o
                 if op.startswith("dfx"):
                     op += " %d" % rng.randint(0, 4)
             else:
